@@ -17,34 +17,23 @@ Definition is_other (k : akind) : bool := match k with KOther _ _ _ => true | _ 
 Definition int_valued (a : argspec) : bool :=
   (akind_eqb (a_kind a) KInt || is_other (a_kind a)) && negb (a_incrementable a).
 
-Definition is_failT (o : cast_out) : bool := match o with CFailT => true | _ => false end.
-
-(** the type of the argument rejects texts with ValueError only.  (A TypeError
-    raised by [kind(text)] -- bytes, date ... defaults -- is not caught by
-    [ParseMachine.set_arg_value]: finding F-C07f; this conjunct is its
-    complement.) *)
-Definition kind_type_safe (k : akind) : bool :=
-  match k with
-  | KOther _ d tbl => negb (is_failT d) && forallb (fun e => negb (is_failT (snd e))) tbl
-  | _ => true
-  end.
-
 (** Static well-formedness of an argument: it has a name; a counter starts
-    from a number (else F-C07e); a list argument is not value-optional; an
+    from a number (else F-C07e); an
     argument called "help" has a type that cannot reject a text (the --help
     special case assigns a task name to it outside the guarded
-    [set_arg_value]); its type raises ValueError only (else F-C07f). *)
+    [set_arg_value]). *)
 Definition arg_wf (a : argspec) : bool :=
   match a_names a with [] => false | _ => true end
   && (negb (a_incrementable a) || is_num (a_default a))
-  && (negb (akind_eqb (a_kind a) KList) || a_incrementable a || negb (a_optional a))
-  && negb (int_valued a && String.eqb (arg_name a) "help")
-  && kind_type_safe (a_kind a).
+  && negb (int_valued a && String.eqb (arg_name a) "help").
 
 Definition rarg_ok (r : rarg) : bool :=
   arg_wf (r_spec r)
   && (if a_incrementable (r_spec r) then is_num (r_val r)
-      else if akind_eqb (a_kind (r_spec r)) KList then is_alist (r_val r) else true).
+      else if akind_eqb (a_kind (r_spec r)) KList then is_alist (r_val r) && r_raw r else true).
+(** (a list argument's raw_value is never None: it starts as [] -- so the
+    "optional flag seen without value -> True" branch of complete_flag never
+    applies to list arguments, value-optional or not) *)
 
 Definition rctx_ok (c : rctx) : bool := forallb rarg_ok (rc_args c).
 Definition named (c : rctx) : bool := match rc_name c with Some _ => true | None => false end.
@@ -228,37 +217,20 @@ Definition vcond (r : rarg) (v : inval) (cast : bool) : bool :=
                && (negb (is_other (a_kind (r_spec r))) || a_incrementable (r_spec r) || negb cast)
   end.
 
-Lemma mk_ok a raw x :
+Lemma mk_ok a x :
   arg_wf a = true -> a_incrementable a = false ->
   (akind_eqb (a_kind a) KList = false \/ is_alist x = true) ->
-  rarg_ok (mkRArg a raw x) = true.
+  rarg_ok (mkRArg a true x) = true.
 Proof.
   intros W Inc H. unfold rarg_ok; simpl. rewrite W, Inc. simpl.
   destruct H as [H|H]; [rewrite H; reflexivity|]. rewrite H. destruct (akind_eqb _ _); reflexivity.
-Qed.
-
-Lemma cast_lookup_in s tbl o : cast_lookup s tbl = Some o -> In (s, o) tbl.
-Proof.
-  induction tbl as [|[k x] tbl IH]; simpl; [discriminate|].
-  destruct (String.eqb k s) eqn:E; [|auto].
-  apply String.eqb_eq in E. subst k. intros [= <-]. left. reflexivity.
-Qed.
-
-Lemma type_safe_cast ty d tbl s :
-  kind_type_safe (KOther ty d tbl) = true -> cast_other d tbl s <> CFailT.
-Proof.
-  unfold kind_type_safe, cast_other. rewrite andb_true_iff. intros [Hd Ht].
-  destruct (cast_lookup s tbl) as [o|] eqn:E.
-  - apply cast_lookup_in in E. rewrite forallb_forall in Ht. specialize (Ht _ E). cbn [snd] in Ht.
-    intros ->. discriminate Ht.
-  - intros ->. discriminate Hd.
 Qed.
 
 Lemma set_value_ok r v cast :
   rarg_ok r = true -> vcond r v cast = true ->
   match set_value r v cast with
   | Ok r' => rarg_ok r' = true /\ r_spec r' = r_spec r
-  | Err e => e = EValue /\ int_valued (r_spec r) = true /\ (exists s, v = IStr s)
+  | Err e => (e = EValue \/ e = EType) /\ int_valued (r_spec r) = true /\ (exists s, v = IStr s)
   end.
 Proof.
   destruct r as [a raw val]. unfold set_value, new_value, vcond, arg_value. simpl.
@@ -272,20 +244,17 @@ Proof.
         (split; [apply mk_ok; auto; left; rewrite K; reflexivity | reflexivity]).
     + destruct cast; [destruct v as [s|b]; [destruct (parse_int s)|]|]; simpl;
         try (split; [apply mk_ok; auto; left; rewrite K; reflexivity | reflexivity]).
-      split; [reflexivity|]. split; [|eauto]. unfold int_valued. simpl. rewrite K, Inc. reflexivity.
+      split; [left; reflexivity|]. split; [|eauto]. unfold int_valued. simpl. rewrite K, Inc. reflexivity.
     + destruct cast; [destruct v|]; simpl;
         (split; [apply mk_ok; auto; left; rewrite K; reflexivity | reflexivity]).
-    + simpl in Hv. destruct val; try discriminate. simpl.
+    + simpl in Hv. apply andb_true_iff in Hv. destruct Hv as [Hv _].
+      destruct val; try discriminate. simpl.
       destruct v as [s|b]; [|discriminate]. simpl.
       split; [apply mk_ok; auto | reflexivity].
-    + assert (Ts : kind_type_safe (KOther ty ko_default ko_table) = true).
-      { unfold arg_wf in W. rewrite !andb_true_iff in W. destruct W as [_ Ts]. rewrite K in Ts. exact Ts. }
-      destruct cast; [destruct v as [s|b]|]; simpl.
-      * pose proof (type_safe_cast ty ko_default ko_table s Ts) as Nt.
-        destruct (cast_other ko_default ko_table s); simpl;
-          try (split; [apply mk_ok; auto; left; rewrite K; reflexivity | reflexivity]).
-        -- split; [reflexivity|]. split; [|eauto]. unfold int_valued. simpl. rewrite K, Inc. reflexivity.
-        -- congruence.
+    + destruct cast; [destruct v as [s|b]|]; simpl.
+      * destruct (cast_other ko_default ko_table s); simpl;
+          try (split; [apply mk_ok; auto; left; rewrite K; reflexivity | reflexivity]);
+          (split; [auto|]; split; [|eauto]; unfold int_valued; simpl; rewrite K, Inc; reflexivity).
       * simpl in Hc. discriminate Hc.
       * split; [apply mk_ok; auto; left; rewrite K; reflexivity | reflexivity].
 Qed.
@@ -321,13 +290,13 @@ Proof.
   - unfold same_frame, shape, set_ctxs; simpl. repeat split; auto.
 Qed.
 
-(** raw: the only possible error is the ValueError of [int()] *)
+(** raw: the only possible errors are the ValueError / TypeError of the argument's type *)
 Lemma set_arg_value_R m f v cast :
   invc m = true ->
   (forall r, get_arg m f = Some r -> vcond r v cast = true) ->
   match set_arg_value m f v cast with
   | Ok m' => invc m' = true /\ same_frame m m'
-  | Err e => e = EValue /\ exists r s, get_arg m f = Some r /\ int_valued (r_spec r) = true /\ v = IStr s
+  | Err e => (e = EValue \/ e = EType) /\ exists r s, get_arg m f = Some r /\ int_valued (r_spec r) = true /\ v = IStr s
   end.
 Proof.
   intros I Hc. unfold set_arg_value.
@@ -360,7 +329,7 @@ Lemma set_arg_value_checked_L m f v cast :
 Proof.
   intros I Hc. pose proof (set_arg_value_R m f v cast I Hc) as R.
   destruct (set_arg_value m f v cast) as [m'|e]; simpl; [exact R|].
-  destruct R as [-> _]. reflexivity.
+  destruct R as [[-> | ->] _]; reflexivity.
 Qed.
 
 (** ** the enter actions *)
@@ -377,11 +346,14 @@ Proof.
     [|simpl; split; [exact I | apply same_frame_refl]].
   apply set_arg_value_L; [exact I| |intros ? ? _ E; discriminate E].
   intros r' G'. rewrite G in G'. injection G' as <-.
-  pose proof (invc_get_arg _ _ _ I G) as Okr. unfold rarg_ok, arg_wf in Okr.
-  apply andb_true_iff in O. destruct O as [_ O].
-  rewrite !andb_true_iff in Okr. destruct Okr as [[[[[_ _] Hl] _] _] _].
-  simpl. rewrite O in Hl. simpl in Hl. rewrite orb_false_r in Hl. rewrite Hl. simpl.
-  rewrite orb_true_r. reflexivity.
+  pose proof (invc_get_arg _ _ _ I G) as Okr. unfold rarg_ok in Okr.
+  pose proof O as O'. 
+  apply andb_true_iff in Okr. destruct Okr as [_ Hv].
+  apply andb_true_iff in O'. destruct O' as [Nr _]. rewrite negb_true_iff in Nr.
+  unfold vcond. rewrite orb_true_r, andb_true_r.
+  destruct (a_incrementable (r_spec r)); [apply orb_true_r|].
+  destruct (akind_eqb (a_kind (r_spec r)) KList); [|reflexivity].
+  rewrite Nr, andb_false_r in Hv. discriminate Hv.
 Qed.
 
 Lemma res_update_frame m res' :
@@ -446,7 +418,7 @@ Proof.
   intros W. unfold rarg_ok, init_arg, init_value; simpl. rewrite W. simpl.
   destruct (a_incrementable a) eqn:Inc.
   - unfold arg_wf in W. rewrite Inc in W. rewrite !andb_true_iff in W.
-    destruct W as [[[[_ W] _] _] _]. exact W.
+    destruct W as [[_ W] _]. exact W.
   - destruct (a_kind a); reflexivity.
 Qed.
 
@@ -536,7 +508,7 @@ Proof.
   assert (existsb (fun r0 => mem (to_flag (main_name (r_spec r))) (arg_flags (r_spec r0))) args = true).
   { apply existsb_exists. exists r. split; [exact In|].
     rewrite forallb_forall in O. specialize (O r In). unfold rarg_ok, arg_wf in O.
-    rewrite !andb_true_iff in O. destruct O as [[[[[Hn _] _] _] _] _].
+    rewrite !andb_true_iff in O. destruct O as [[[Hn _] _] _].
     unfold main_name, arg_flags. destruct (a_names (r_spec r)) as [|n ns]; [discriminate|].
     simpl. rewrite String.eqb_refl. reflexivity. }
   congruence.
@@ -689,7 +661,7 @@ Proof.
     apply L_G with (m := m); [exact R|]. apply set_arg_value_L; [exact I | reflexivity|].
     intros r0 s0 G0 _. rewrite GA in G0. injection G0 as <-.
     pose proof (invc_get_arg _ _ _ I GA) as Okr. unfold rarg_ok, arg_wf in Okr.
-    rewrite !andb_true_iff, negb_true_iff in Okr. destruct Okr as [[[_ Hx] _] _].
+    rewrite !andb_true_iff, negb_true_iff in Okr. destruct Okr as [[_ Hx] _].
     rewrite Hh, andb_true_r in Hx. exact Hx.
   - apply L_G with (m := m); [exact R|]. apply switch_to_flag_L; [exact I|].
     unfold flag_known. rewrite IC. simpl. unfold find_flag. rewrite FF. apply orb_true_r.
